@@ -135,7 +135,10 @@ fn execute(sc: &Scenario, acc: &mut Acc) -> Result<Vec<Violation>, String> {
     let mut w = World::new(sc.env.clone(), sc.root_meta);
     acc.runs += 1;
     *acc.backends.entry("mem".into()).or_default() += 1;
-    let box_base = w.scratch.path.join("box");
+    // The sandbox path ends up inside the archive (absolute symlink targets are recorded), so it
+    // must be a function of the scenario, not of the process id or of which worker runs it.
+    let box_base = std::path::PathBuf::from(if std::path::Path::new("/dev/shm").is_dir() { "/dev/shm" } else { "/tmp" }).join(format!("verif-box-{:016x}", sc.seed));
+    let _ = std::fs::remove_dir_all(&box_base);
     for step in &sc.steps {
         // resolve the absolute-target placeholder
         let step2 = match step {
@@ -254,6 +257,7 @@ fn execute(sc: &Scenario, acc: &mut Acc) -> Result<Vec<Violation>, String> {
         }
         let _ = std::fs::remove_dir_all(&bx);
     }
+    let _ = std::fs::remove_dir_all(&box_base);
     let mut seen = BTreeSet::new();
     out.retain(|v| seen.insert(v.signature()));
     Ok(out)
